@@ -1,5 +1,7 @@
 package main
 
+import "fmt"
+
 // multiMachine hosts the five Redis-backed machines on ONE shared miniredis (C19). Ops are
 // (sub innerOp). Every sub-machine's history, projected out of the interleaving, is replayed on
 // that machine's model ALONE on an empty store and the answers are diffed: each structure must
@@ -58,4 +60,87 @@ func (m *multiMachine) Split(r *RunResult) []SubRun {
 
 type splitter interface {
 	Split(r *RunResult) []SubRun
+}
+
+// staleKeyViolation: the observation (78 <key>) reported by a Redis machine when a constructor
+// or an import under new keys used a key that was already present in the database.
+func staleKeyViolation(name string, op, o Tok, step int) (MonViolation, bool) {
+	if o.Kind == 2 && len(o.L) == 2 && o.L[0].Kind == 0 && o.L[0].U() == 78 {
+		return MonViolation{name + "/new-key-not-fresh",
+			fmt.Sprintf("a constructor or an import under new keys used the key %q, which was already present in the database", o.L[1].B), step}, true
+	}
+	return MonViolation{}, false
+}
+
+// monitorC19 is the property text on the implementation's own observations: a structure's
+// answers only change through operations on one of its own handles. Handles are grouped by
+// re-attachment; an import under new keys starts a new group (the copy), so no operation on the
+// copy - or on any other structure in the database - may change what the exporter answers.
+func monitorC19(orig, ops, obs []Tok) []MonViolation {
+	kinds := []structGen{structGensRedis[2], structGensRedis[0], structGensRedis[1], cuckooRedisGen, structGensRedis[3]}
+	names := []string{"bloom", "cms", "hll", "cuckoo", "topk"}
+	var out []MonViolation
+	type hk struct{ kind, inst int }
+	group := map[hk]int{}
+	next := 0
+	last := map[hk]map[string]string{} // per handle: query -> last answer
+	invalidate := func(kind, g int) {
+		for h, gg := range group {
+			if h.kind == kind && gg == g {
+				delete(last, h)
+			}
+		}
+	}
+	for step, op := range ops {
+		k, in, o := op.L[0].I(), op.L[1], obs[step]
+		src := orig[step].L[1] // as given: instance numbers, import flag
+		if v, bad := staleKeyViolation("shared-db/"+names[k], in, o, step); bad {
+			out = append(out, v)
+			continue
+		}
+		if len(in.L) < 2 || o.String() == "(9)" {
+			continue
+		}
+		code, h := in.L[0].I(), hk{k, in.L[1].I()}
+		sg := kinds[k]
+		g, alive := group[h]
+		switch {
+		case code == opAttach:
+			delete(last, h)
+			if sg, ok := group[hk{k, src.L[2].I()}]; ok && isOk(o) {
+				group[h] = sg
+			} else {
+				delete(group, h)
+			}
+		case code == opExport || code == opEquals:
+		case code < 20 && sg.isQuery(in):
+			if !alive {
+				continue
+			}
+			q := in.L[0].String()
+			for i, f := range in.L[2:] {
+				if k == 2 && code == hlCount && i >= 2 {
+					break // the implementation's answer travels in the op
+				}
+				q += " " + f.String()
+			}
+			v := queryValue(in, o)
+			if last[h] == nil {
+				last[h] = map[string]string{}
+			}
+			if prev, ok := last[h][q]; ok && prev != v {
+				out = append(out, MonViolation{"shared-db/" + names[k] + "/answers-changed-without-own-update",
+					fmt.Sprintf("%s answered %s, then %s, with no operation on any of its own handles in between", sg.opName(in), trunc(prev), trunc(v)), step})
+			}
+			last[h][q] = v
+		case !alive || (code == opImport && len(src.L) > 3 && src.L[3].U() != 0):
+			// constructor, or import under new keys: a structure of its own from here on
+			delete(last, h)
+			group[h] = next
+			next++
+		default:
+			invalidate(k, g)
+		}
+	}
+	return out
 }
